@@ -144,6 +144,7 @@ Proof.
   - destruct (req_set_header H c k v) as [H1|] eqn:E1; simpl; [|discriminate].
     intro E; injection E as <-. rewrite (req_set_header_next _ _ _ _ _ E1). lia.
   - intro E; injection E as <-. lia.
+  - intro E; injection E as <-. lia.
 Qed.
 
 Lemma exec_next_mono fx ops : forall H H', exec fx ops H = Some H' -> (next H <= next H')%nat.
